@@ -161,6 +161,24 @@ CHECKS = {
         technique=TECH + 'replica agreement (emitted Verilog under an independent interpreter vs '
                   'reference model) over cycles with injected reset events, seeded name/sort schedule',
         design='5 C05'),
+    'C20': dict(
+        level='exploration',
+        text='Seeded search over schedules: each script is built K times under different hash '
+             'seeds, statement orders and allocation noise (hash seam) and, for a fraction of runs '
+             'and for every in-process difference, in plain subprocesses under other '
+             'PYTHONHASHSEED values with real id() hashing; bytes of Verilog, testbench, VCD, '
+             'print_trace and the traces are compared. Read-only: fingerprint and RefSim behaviour '
+             'around 14 export / visualisation / analysis calls, with the file object failing on '
+             'its k-th write. Passes: synthesize+optimize behaviour under the same schedules. '
+             'Sampling, not proof.',
+        note='Trusted: hash seam explores the same permutation space as real addresses (every '
+             'in-process difference is re-confirmed un-patched before it is reported); RefSim; '
+             'fingerprint. Workers themselves run under 8 (quick) / 32 (thorough) PYTHONHASHSEED '
+             'classes.',
+        technique=TECH + 'seeded schedule search (set-iteration order via hash seam, PYTHONHASHSEED '
+                  'processes, allocation noise) with writer_fault crash points; byte-equality and '
+                  'before/after oracles',
+        design='5 C20'),
 }
 
 NOT_APPLICABLE = {
